@@ -151,7 +151,7 @@ func (x *Exec) errorsIs(err, target Iface, comparable bool, depth int) bool {
 			}
 			err = r
 		case Slice:
-			for _, e := range r.a {
+			for _, e := range x.sl(r) {
 				ei := e.(Iface)
 				if ei.t == nil {
 					continue
@@ -221,7 +221,7 @@ func (x *Exec) errorsAs(err Iface, tt types.Type, slot *Value, depth int) bool {
 			}
 			err = r
 		case Slice:
-			for _, e := range r.a {
+			for _, e := range x.sl(r) {
 				ei := e.(Iface)
 				if ei.t == nil {
 					continue
@@ -257,7 +257,7 @@ func inFmtErrorf(fr *frame, args []Value) Value {
 	if !ok {
 		x.unsupported("fmt.Errorf with non-constant format")
 	}
-	operands := args[1].(Slice).a
+	operands := x.sl(args[1].(Slice))
 	// scan verbs
 	var wrapped []Value
 	argi := 0
@@ -324,7 +324,7 @@ func inFmtSprintf(fr *frame, args []Value) Value {
 	if !ok {
 		x.unsupported("fmt.Sprintf with non-constant format")
 	}
-	operands := args[1].(Slice).a
+	operands := x.sl(args[1].(Slice))
 	if format == "%s%05x" || format == "%s%05x.spool" {
 		s := operands[0].(Iface)
 		var prefix StrV
@@ -364,7 +364,7 @@ func inStringsIndexByte(fr *frame, args []Value) Value {
 func inBytesIndexByte(fr *frame, args []Value) Value {
 	x := fr.x
 	sl := args[0].(Slice)
-	s := make(StrV, len(sl.a))
+	s := make(StrV, len(x.sl(sl)))
 	for i, v := range sl.a {
 		s[i] = v.(*Term)
 	}
@@ -385,7 +385,7 @@ func inSortSlice(fr *frame, args []Value) Value {
 	x := fr.x
 	sl := args[0].(Iface).v.(Slice)
 	less := args[1]
-	n := len(sl.a)
+	n := len(x.sl(sl))
 	for i := 1; i < n; i++ {
 		for j := i; j > 0; j-- {
 			r := x.call(fr, less, []Value{x.tc.Const(64, uint64(j)), x.tc.Const(64, uint64(j-1))})
